@@ -587,6 +587,7 @@ def run(ctx):
     ctx.note("edges", len(edges))
     if len(edges) < 200:
         raise core.MachineryError(f"edge dump too small: {len(edges)}")
+    core.edge_label_coverage(ctx, edges, lambda e: e["op"] if e["op"] != "burst" else "burst:" + str(e["b"].get("cls")), "tracker", 12)
     # two-timeslot model (smaller depth): exhaustive check only
     with open(os.path.join(ctx.rundir, "MC_Transmission_2.cfg"), "w") as f:
         f.write(CFG.format(depth=5 if ctx.quick else 7, slots="{1, 2}", btfs="{0, 2}", endall="TRUE")
